@@ -400,6 +400,9 @@ type emitWorld struct {
 	proxy util.Uint160
 	ir    []util.Uint160
 	names map[util.Uint160]string
+	// role rotation
+	gen    int
+	former []util.Uint160
 }
 
 func newEmitWorld(n, r int) *emitWorld {
@@ -415,6 +418,21 @@ func newEmitWorld(n, r int) *emitWorld {
 	}
 	c.DesignateAlphabet(pubs)
 	return w
+}
+
+// rotate designates r fresh Inner Ring keys; the dismissed ones stay watched.
+func (w *emitWorld) rotate(r int) {
+	w.gen++
+	w.former = append(w.former, w.ir...)
+	w.ir = nil
+	var pubs keys.PublicKeys
+	for i := 0; i < r; i++ {
+		k := chainkit.DetKey(fmt.Sprintf("inner-ring-gen%d-%d", w.gen, i))
+		pubs = append(pubs, k.PublicKey())
+		w.ir = append(w.ir, k.PublicKey().GetScriptHash())
+		w.names[k.PublicKey().GetScriptHash()] = fmt.Sprintf("Inner Ring node %d (generation %d)", i, w.gen)
+	}
+	w.c.DesignateAlphabet(pubs)
 }
 
 // emitOnce sets the contract's balances, triggers emit and checks the split.
@@ -435,7 +453,7 @@ func (w *emitWorld) emitOnce(h *ev.History, idx int, gasBal int64, neo int64, ca
 		}
 		c.Skip(3)
 	}
-	watch := append([]util.Uint160{alpha, w.proxy}, w.ir...)
+	watch := append(append([]util.Uint160{alpha, w.proxy}, w.ir...), w.former...)
 	pre := gasLedger(c, watch)
 	var signers []neotest.Signer
 	switch caller {
@@ -535,7 +553,7 @@ func TestC19Emit(t *testing.T) {
 func TestC19EmitRandom(t *testing.T) {
 	theT = t
 	col := ev.New("C19", "emit-random",
-		"rapid: committees of 1/4/7 keys, Inner Ring 1..7, sequences of emits on random Alphabet contracts with random top-ups 0..10^12 and NEO holdings, plus GAS/NEO/foreign-token payments into Proxy and Alphabet contracts (Proxy must refuse NEO and foreign tokens, Alphabet must refuse foreign tokens); same split oracle; non-trivial = at least two successful emits")
+		"rapid: committees of 1/4/7 keys, Inner Ring 1..7, sequences of emits on random Alphabet contracts with random top-ups 0..10^12 and NEO holdings, plus GAS/NEO/foreign-token payments into Proxy and Alphabet contracts (Proxy must refuse NEO and foreign tokens, Alphabet must refuse foreign tokens); before one emission in five the NeoFSAlphabet role is re-designated to 1..7 other keys in the preceding block (the new list is paid, the dismissed keys are watched and get nothing); same split oracle; non-trivial = at least two successful emits")
 	runRapid(t, col, func(rt *rapid.T, h *ev.History) {
 		n := rapid.SampledFrom([]int{1, 4, 7}).Draw(rt, "n")
 		r := rapid.IntRange(1, 7).Draw(rt, "innerRing")
@@ -568,6 +586,13 @@ func TestC19EmitRandom(t *testing.T) {
 			}
 			neo := int64(rapid.SampledFrom([]int{0, 0, 1, 1000}).Draw(rt, "neo"))
 			caller := rapid.SampledFrom([]string{"own", "own", "own", "other-member", "stranger"}).Draw(rt, "caller")
+			if rapid.IntRange(0, 4).Draw(rt, "rotateInnerRing") == 0 {
+				// the Inner Ring changes in the block before the emission: the new list is paid, the old one is not
+				r2 := rapid.IntRange(1, 7).Draw(rt, "newInnerRing")
+				w.rotate(r2)
+				h.Op("the NeoFSAlphabet role is re-designated to %d other keys", r2)
+				h.Mark("role-rotation")
+			}
 			before := h.Has("emit-ok")
 			w.emitOnce(h, ci, bal, neo, caller)
 			_ = before
